@@ -588,7 +588,15 @@ def run_e2e(ctx, n_apis, nreq, reserved, tag="e2e", fixed=None, sequences=0):
             sync_m = client_methods(files[base + "client.py"], "Client")
             async_m = client_methods(files[base + "async_client.py"], "AsyncClient")
         except Exception as e:  # noqa
-            ctx.violation(f"e2e #{i}: emitted client does not parse: {type(e).__name__}: {e}", case0)
+            line = ""
+            if isinstance(e, SyntaxError) and e.lineno:
+                for nm in (base + "client.py", base + "async_client.py"):
+                    try:
+                        ast.parse(files[nm])
+                    except SyntaxError as e2:
+                        line = f" -- {nm.rsplit('/', 1)[1]} line {e2.lineno}: {files[nm].splitlines()[e2.lineno - 1].strip()!r}"
+                        break
+            ctx.violation(f"e2e #{i}: emitted client does not parse: {type(e).__name__}: {e}{line}", case0)
             continue
         for m in methods:
             py = snake(m["name"])
